@@ -209,7 +209,7 @@ def run_query(q, shape, scratch_root, tier):
         if q.get('leak_check', False):
             flags += ['--memory-leak-check']
         checks = CBMC_CHECKS if q.get('checks', True) else []
-        solver = q.get('solver', ['--sat-solver', 'cadical'])
+        solver = q.get('solver', [])
         cb = ['cbmc', gb] + checks + flags + solver + ['--slice-formula', '--trace', '--json-ui']
         if q.get('no_slice'):
             cb.remove('--slice-formula')
@@ -257,7 +257,7 @@ def run_query(q, shape, scratch_root, tier):
             r.reason = 'loop contract silently dropped (no loop_invariant_step obligation)'
             return r
         if not r.reach_ok:
-            r.reason = 'vacuous: reachability obligation KV_REACH did not fail'
+            r.reason = 'vacuous: reachability obligation KV_REACH did not fail' + ((' (unwinding bound too small: %s)' % ', '.join(undec[:4])) if undec else '')
             return r
         if r.failed:
             r.status = 'fail'
@@ -394,6 +394,8 @@ def check_property(prop, tier, jobs, only=None):
     for k in known_p:
         if 'define' in k and 'query' in k:
             kf_defs.setdefault(k['query'], []).append('-D' + k['define'])
+    if not only:
+        shutil.rmtree(os.path.join(VERIF, 'replay', prop), ignore_errors=True)
     scratch_root = tempfile.mkdtemp(prefix='kv_%s_' % prop)
     results = []
     try:
